@@ -101,6 +101,8 @@ def run_impl(case, tree="/repo", deep=True):
     if u is not None and v is not None:
         o["eq_v"] = bool(u == v)
         o["ne_v"] = bool(u != v)
+        o["eq_vu"] = bool(v == u)
+        o["ne_vu"] = bool(v != u)
         try:
             o["hash_v_equal"] = hash(u) == hash(v)
         except TypeError:
@@ -256,8 +258,11 @@ def oracle(case, o):
             bad.append(("equal-but-different-state", "URI(%r) == URI(%r) although their fields differ" % (case["s"], case.get("s2"))))
         if same and not o["eq_v"]:
             bad.append(("same-state-unequal", "URI(%r) != URI(%r) although protocol, object and location are the same" % (case["s"], case.get("s2"))))
-        if o["ne_v"] == o["eq_v"]:
+        if o["ne_v"] == o["eq_v"] or o.get("ne_vu", not o.get("eq_vu")) == o.get("eq_vu"):
             bad.append(("ne-inconsistent", "!= is not the negation of == for %r / %r" % (case["s"], case.get("s2"))))
+        if o.get("eq_vu", o["eq_v"]) != o["eq_v"]:
+            bad.append(("eq-asymmetric", "URI(%r) == URI(%r) is %s but the other way round it is %s" % (
+                case["s"], case.get("s2"), o["eq_v"], o.get("eq_vu"))))
         if o["eq_v"] and o["hash_v_equal"] is False:
             bad.append(("equal-uris-unequal-hash", "URI(%r) == URI(%r) but their hashes differ" % (case["s"], case.get("s2"))))
     if st is None or o.get("p_kind") != "ok":
@@ -490,6 +495,112 @@ def mutate_spec(rng, spec):
     return v
 
 
+def _swapcase_some(rng, t):
+    """change the letter case of at least one letter of t (None if t has no cased letter)"""
+    idx = [i for i, ch in enumerate(t) if ch.swapcase() != ch and len(ch.swapcase()) == 1]
+    if not idx:
+        return None
+    pick = set(idx) if rng.random() < 0.5 else set(rng.sample(idx, rng.randint(1, len(idx))))
+    return "".join(ch.swapcase() if i in pick else ch for i, ch in enumerate(t))
+
+
+def _change_char(rng, t):
+    if not t:
+        return None
+    i = rng.randrange(len(t))
+    repl = rng.choice([c for c in "abcxyz019" if c != t[i]])
+    return t[:i] + repl + t[i + 1:]
+
+
+def unequal_variant(rng, spec, ns_port):
+    """a spec that differs from `spec` in exactly one respect which must make the two URIs UNEQUAL
+    (letter case of host / object / a tag / socket name, one character changed, port +-1, default port vs another
+    port, host with a trailing dot, one tag more or less); None if the chosen respect does not apply"""
+    v = json.loads(json.dumps(spec))
+    loc = v["loc"]
+    if isinstance(loc, dict) and isinstance(loc.get("port"), list):
+        loc["port"] = tuple(loc["port"])
+    kinds = ["objcase", "objchar"]
+    if loc is not None:
+        if loc["kind"] in ("host", "ip6"):
+            kinds += ["hostcase", "hostcase", "hostcase", "hostchar", "port", "port", "dot"]
+        else:
+            kinds += ["sockcase", "sockcase", "sockchar"]
+    if "tags" in v:
+        kinds += ["tagset"]
+    k = rng.choice(kinds)
+    if k in ("objcase", "objchar"):
+        f = _swapcase_some if k == "objcase" else _change_char
+        if "tags" in v:
+            i = rng.randrange(len(v["tags"]))
+            t = f(rng, v["tags"][i])
+            if t is None or "," in t:
+                return None
+            old = v["tags"][i]
+            v["tags"] = [t if x == old else x for x in v["tags"]]
+        else:
+            t = f(rng, v["obj"])
+            if t is None:
+                return None
+            v["obj"] = t
+    elif k in ("hostcase", "hostchar"):
+        h = loc["host"]
+        if loc["kind"] == "ip6":
+            if not (h.startswith("[") and "]" in h):
+                return None
+            inner = h[1:h.index("]")]
+            t = _swapcase_some(rng, inner) if k == "hostcase" else (_change_char(rng, inner) if inner else None)
+            if t is None:
+                return None
+            loc["host"] = "[" + t + h[h.index("]"):]
+        else:
+            t = _swapcase_some(rng, h) if k == "hostcase" else _change_char(rng, h)
+            if t is None:
+                return None
+            loc["host"] = t
+    elif k == "dot":
+        if loc["kind"] != "host" or not loc["host"]:
+            return None
+        loc["host"] = loc["host"] + "."
+    elif k == "port":
+        port = loc.get("port")
+        if isinstance(port, tuple) and port[0] == "val":
+            loc["port"] = ("val", port[1] + rng.choice([1, -1]))
+        elif port in (None, ""):
+            loc["port"] = ("val", ns_port + rng.choice([1, -1, 10]))     # default port vs another port
+        else:
+            return None
+    elif k in ("sockcase", "sockchar"):
+        t = loc["text"]
+        if not t.startswith("./u:") or len(t) <= 4:
+            return None
+        name = _swapcase_some(rng, t[4:]) if k == "sockcase" else _change_char(rng, t[4:])
+        if name is None:
+            return None
+        loc["text"] = "./u:" + name
+    elif k == "tagset":
+        if len(set(v["tags"])) > 1 and rng.random() < 0.5:
+            drop = v["tags"][0]
+            v["tags"] = [x for x in v["tags"] if x != drop]
+        else:
+            new = [t for t in TAGS if t not in v["tags"]]
+            v["tags"].append(rng.choice(new))
+    return v
+
+
+def equal_variant(rng, spec, ns_port):
+    """same URI written differently: protocol letter case, port spelling, tag order/duplicates come from render();
+    here additionally the default port written explicitly"""
+    v = json.loads(json.dumps(spec))
+    loc = v["loc"]
+    if isinstance(loc, dict) and isinstance(loc.get("port"), list):
+        loc["port"] = tuple(loc["port"])
+    if loc is not None and loc["kind"] in ("host", "ip6") and loc.get("port") in (None, "") and v["proto"] != "PYRO" \
+            and rng.random() < 0.7 and not (loc["kind"] == "ip6" and loc.get("junk")):
+        loc["port"] = ("val", ns_port)
+    return v
+
+
 def edit_string(rng, s):
     for _ in range(rng.choice([1, 1, 2, 3])):
         i = rng.randint(0, len(s))
@@ -503,7 +614,7 @@ def edit_string(rng, s):
     return s
 
 
-def gen_cases(ctx):
+def gen_cases(ctx, ns_port=9090):
     rng = ctx.rng
     n = ctx.n(3000, 45000)
     cases = []
@@ -517,10 +628,13 @@ def gen_cases(ctx):
         else:
             s = render(rng, spec)
         r2 = rng.random()
-        if r2 < 0.45:
-            s2 = render(rng, spec)                       # respelling: must compare equal when both parse
-        elif r2 < 0.85:
-            s2 = render(rng, mutate_spec(rng, spec))     # near variant: usually differs in one field
+        if r2 < 0.30:
+            s2 = render(rng, equal_variant(rng, spec, ns_port))   # respelling: must compare equal when both parse
+        elif r2 < 0.78:
+            v = unequal_variant(rng, spec, ns_port)               # one respect changed: must compare unequal
+            s2 = render(rng, v if v is not None else mutate_spec(rng, spec))
+        elif r2 < 0.90:
+            s2 = render(rng, mutate_spec(rng, spec))              # near variant: one component replaced
         else:
             s2 = edit_string(rng, s)
         if len(s) > 300 or len(s2) > 300:
@@ -542,6 +656,15 @@ def targeted(info):
            {"s": "PYRO:o@h:\x1c5", "s2": "PYRO:o@h:\x855"}, {"s": "PYRO:@@h:1", "s2": "PYRO:@@@h:1"},
            {"s": "PYRONAME:abc@", "s2": "PYRONAME:abc@\n"}, {"s": "PYRO:o@./u:a b", "s2": "PYRO:o@./u:a:b"},
            {"s": "PYRO:o@h:5\n", "s2": "PYRO:o@h:5\n\n"}, {"s": "PYRO:o@h:" + "9" * 60, "s2": "PYRO:o@h:" + "9" * 59 + "8"}]
+    pool = ["PYRO:obj@host.example.com:4444", "pyro:obj@host.example.com:4444", "PYRO:obj@Host.Example.COM:4444",
+            "PYRO:obj@HOST.EXAMPLE.COM:+4444", "PYRO:obj@host.example.com:4445", "PYRO:Obj@host.example.com:4444",
+            "PYRO:obj@host.example.com.:4444", "PYRO:obj@127.0.0.1:4444", "PYRO:obj@[::1]:4444", "PYRO:obj@[FE80::A]:4444",
+            "PYRO:obj@[fe80::a]:4444", "PYRO:obj@:4444", "PYRO:obj@./u:/tmp/Sock", "PYRO:obj@./u:/tmp/sock", "PYRONAME:name",
+            "PYRONAME:name@nshost", "PyroName:name@NSHOST:%d" % info.get("ns_port", 9090), "PYRONAME:name@nshost:%d" % (info.get("ns_port", 9090) + 1),
+            "PYROMETA:a,b@nshost", "PYROMETA:b,a@NsHost", "PYROMETA:b,a", "PYROMETA:B,a"]
+    for i in range(len(pool)):
+        for j in range(i, len(pool)):
+            out.append({"s": pool[i], "s2": pool[j]})
     for p in PROTOS:
         for loc in ["", "@h:1", "@[::1]:1", "@./u:s", "@h", "@[::1]"]:
             out.append({"s": "%s:a%s" % (p, loc), "s2": "%s:a%s" % (p.lower(), loc)})
@@ -597,13 +720,16 @@ def gen_info(ctx):
 def run(ctx, model_ok=True):
     res = vlib.Result()
     info = gen_info(ctx)
-    cases = vlib.load_corpus(PROP) + targeted(info) + gen_cases(ctx)
+    cases = vlib.load_corpus(PROP) + targeted(info) + gen_cases(ctx, info.get("ns_port", 9090))
     execute(ctx, cases, model_ok, res)
     res.rule = ("seeded grammar-based strings: protocol in random letter case (and near-miss protocol words), objects with @ , : [ "
                 "punctuation / tag lists with empty, duplicate and @ tags, locations = hostnames, IPv4, bracketed IPv6 (valid and broken), "
                 "empty host, ./u: sockets, ports spelled with signs, zero padding, underscores, surrounding whitespace, digits of other "
                 "Unicode blocks, missing and malformed ports, optional final newline; 16% of the strings get 1-3 random character edits; "
-                "each string is paired with a respelling of the same URI or a one-component variant (for == / hash / location inequality); "
+                "each string is paired with a respelling that must stay equal (protocol case, port spelling, tag order, explicit default port: 30%), "
+                "a variant differing in exactly one respect that must make it unequal (letter case of host/object/tag/socket name, one "
+                "character, port +-1, default vs other port, trailing dot, tag added/removed: 48%), a one-component replacement or a random edit; "
+                "plus all pairs of a 22-string pool; on each pair: == iff all state fields equal, == implies equal hash, symmetry, != is not ==; "
                 "non-trivial = accepted with a location or a tag set; distinct = distinct (s, s2) hash")
     res.samples = cases[-3:] + cases[:2]
     return res
@@ -612,7 +738,7 @@ def run(ctx, model_ok=True):
 def search(ctx, broken):
     res = vlib.Result()
     info = gen_info(ctx)
-    cases = [b["case"] for b in broken if b.get("case")] + vlib.load_corpus(PROP) + targeted(info) + gen_cases(ctx)
+    cases = [b["case"] for b in broken if b.get("case")] + vlib.load_corpus(PROP) + targeted(info) + gen_cases(ctx, info.get("ns_port", 9090))
     for case in cases:
         o = run_impl(case, ctx.tree, deep=False)
         res.seen(case)
